@@ -12,6 +12,7 @@ import NxsModel.Gen.Types
 import NxsModel.Gen.Fmt
 import NxsModel.Gen.Ids
 import NxsModel.Serial
+import NxsModel.Utf8
 namespace Nxs
 namespace Stream
 open Gen.Ids
@@ -83,19 +84,30 @@ def valToS : Val → SVal
   | .f32 w => .f32 w
   | .f64 w => .f64 w
 
-/-- `_stream_data_get` -/
-def streamDataGet (d : Dsfmt) (unpacked : List Val) : List SVal :=
+/-- `_stream_data_get`, parameterised by how char data is decoded: `replace = true` is
+    `bytes.decode(errors="replace")` (never fails; the text is carried as its wire bytes), `replace = false`
+    is the strict `bytes.decode()` which raises UnicodeDecodeError on bytes that are not valid UTF-8.
+
+    That the code DIVIDES by the scale (`x / decode.scale`, true division — not `//`, not `round`) is not
+    visible at this level: `.fixed x frac` *means* x / 2^frac, and that the Python value is that quotient is
+    checked by the correspondence run only (value glue `streamglue.canon_value`: the decoded float must equal
+    `float(Fraction(raw, 2**frac))`). -/
+def streamDataGetP (replace : Bool) (d : Dsfmt) (unpacked : List Val) : Except Err (List SVal) :=
   if d.dtype = dtNUM ∧ d.hasScale ∧ (¬ Gen.Types.decDividesOnlyScaled ∨ d.frac ≠ 0) then
-    unpacked.map fun v =>
+    .ok (unpacked.map fun v =>
       match v with
       | .int x => .fixed x d.frac          -- x / scale
-      | other => valToS other              -- float / 1.0 is the same float
+      | other => valToS other)             -- float / 1.0 is the same float
   else if d.dtype = dtCHAR ∧ unpacked.length = 1 then
-    unpacked.map fun v =>
-      match v with
-      | .bytes bs => .text bs
-      | other => valToS other
-  else unpacked.map valToS
+    match unpacked with
+    | [.bytes bs] => if replace ∨ Utf8.valid bs then .ok [.text bs] else .error .unicodeError
+    | _ => .error .attributeError          -- a CHAR user type whose single item is not bytes: no `.decode`
+  else .ok (unpacked.map valToS)
+
+/-- `_stream_data_get` as the code has it now: the decoding mode is read from the source by the translator
+    (`Gen.Types.decCharReplace`, F4) -/
+def streamDataGet (d : Dsfmt) (unpacked : List Val) : Except Err (List SVal) :=
+  streamDataGetP Gen.Types.decCharReplace d unpacked
 
 def valsToInts : List Val → List Int
   | [] => []
@@ -127,10 +139,10 @@ def decodeOne (layout : List Chan) (user : List UserType) (rest : Bytes) :
           (dataFmt d ch.vdim).bind fun f =>
             let off := d.slen * ch.vdim
             (unpack f (r1.take off)).bind fun un =>
-              let r2 := r1.drop off
-              (unpack ⟨Gen.Fmt.streamDecBigEndian, msfmtGet ch.mlen⟩ (r2.take ch.mlen)).bind fun m =>
-                .ok (⟨cid.toNat, d.dtype, ch.vdim, ch.mlen, streamDataGet d un, valsToInts m⟩,
-                     r2.drop ch.mlen)
+              (streamDataGet d un).bind fun data =>          -- before the metadata is looked at, as in the code
+                let r2 := r1.drop off
+                (unpack ⟨Gen.Fmt.streamDecBigEndian, msfmtGet ch.mlen⟩ (r2.take ch.mlen)).bind fun m =>
+                  .ok (⟨cid.toNat, d.dtype, ch.vdim, ch.mlen, data, valsToInts m⟩, r2.drop ch.mlen)
 
 /-- the `while i < len(frame.data)` loop; `fuel` bounds the number of samples (each consumes ≥ 1 byte) -/
 def decodeLoop (layout : List Chan) (user : List UserType) : Nat → Bytes → Except Err (List Sample)
